@@ -1,6 +1,7 @@
 (* C17 — wire formats round-trip, and identity depends only on content.
    Statements only; every proof is [exact lemma]. *)
 From NG Require Import Common.Tactics Codec.Bigint Codec.Wire Codec.WireProofs Codec.TxCodec Codec.TxCodecProofs Codec.ItemCodec Codec.ItemCodecProofs.
+From NG Require Import Codec.MptCodec Codec.MptCodecProofs Codec.MptCodecTrie Codec.StateCodec Codec.StateCodecProofs Codec.ExecCodec Codec.ExecCodecProofs Codec.NetCodec Codec.NetCodecProofs.
 Open Scope Z_scope.
 
 (* ---------- reader / writer primitives (pkg/io) ---------- *)
@@ -207,7 +208,7 @@ Proof. split; [exact (proj1 ex_tx_wf)|exact ex_tx_roundtrip]. Qed.
 
 (* the stateful serialiser (budget of items, MaxSize check after every item) is the pure encoding under two limits *)
 Theorem C17_item_serialize_spec : forall i,
-  serialize i = if (count_item i <=? max_items)%nat && (Z.of_nat (length (enc_item i)) <=? max_size)
+  serialize i = if plain i && (count_item i <=? max_items)%nat && (Z.of_nat (length (enc_item i)) <=? max_size)
                 then Some (enc_item i) else None.
 Proof. exact serialize_spec. Qed.
 Print Assumptions C17_item_serialize_spec.
@@ -234,15 +235,234 @@ Print Assumptions C17_item_decode_canonical.
 
 (* decode_total: fuel beyond the input length changes nothing — a None is a rejection, never "out of fuel";
    every successful decode consumes input and stays within the budget *)
-Theorem C17_item_decode_total : forall f f' lim bs,
-  (length bs < f)%nat -> (length bs < f')%nat -> read_item f lim bs = read_item f' lim bs.
+Theorem C17_item_decode_total : forall prot f f' lim bs,
+  (length bs < f)%nat -> (length bs < f')%nat -> read_item prot f lim bs = read_item prot f' lim bs.
 Proof. exact read_item_fuel_enough. Qed.
 Print Assumptions C17_item_decode_total.
-Theorem C17_item_decode_budget : forall f lim bs i lim' rest,
-  read_item f lim bs = Some (i, lim', rest) -> (lim' + count_item i <= lim)%nat /\ (length rest < length bs)%nat.
+Theorem C17_item_decode_budget : forall prot f lim bs i lim' rest,
+  read_item prot f lim bs = Some (i, lim', rest) -> (lim' + count_item i <= lim)%nat /\ (length rest < length bs)%nat.
 Proof. exact read_item_budget. Qed.
 Print Assumptions C17_item_decode_budget.
 
 (* non-vacuity: a Map with Integer, Boolean and ByteString keys holding an Array of a Struct and -2^255 *)
 Example C17_item_example : item_wf ex_item /\ deserialize (enc_item ex_item) = Some ex_item /\ count_item ex_item = 17%nat.
 Proof. split; [exact ex_item_wf|]. split; vm_compute; reflexivity. Qed.
+
+(* ================= extension round: MPT nodes, state root, execution results, NEF, P2P ================= *)
+
+(* ---------- MPT node encodings (pkg/core/mpt), for every node hash function of 32 bytes ---------- *)
+(* decode_encode for canonical nodes (children are references or empty: all the encoder ever writes) *)
+Theorem C17_mptnode_decode_encode : forall H : list Z -> list Z, (forall b, length (H b) = 32%nat) ->
+  forall n f d rest, mnode_wf n -> mnode_canonical n -> (2 <= f)%nat -> d + node_levels n <= 137 ->
+  read_node f d (write_node H n ++ rest) = Some (n, rest).
+Proof. exact node_decode_encode. Qed.
+Print Assumptions C17_mptnode_decode_encode.
+(* for ANY well-formed node: decoding its encoding gives the node with its children replaced by their references *)
+Theorem C17_mptnode_decode_collapse : forall H : list Z -> list Z, (forall b, length (H b) = 32%nat) ->
+  forall n f d rest, mnode_wf n -> (2 <= f)%nat -> d + node_levels n <= 137 ->
+  read_node f d (write_node H n ++ rest) = Some (collapse1 H n, rest).
+Proof. exact node_decode_collapse. Qed.
+Print Assumptions C17_mptnode_decode_collapse.
+(* decode_wf with the nesting limit (maxPathLength) and the allocation bounds of keys and values inside mnode_wf *)
+Theorem C17_mptnode_decode_wf : forall f d bs n rest, bytes_ok bs -> read_node f d bs = Some (n, rest) ->
+  mnode_wf n /\ bytes_ok rest /\ (length rest < length bs)%nat /\ Z.of_nat (mnode_depth n) + d <= 137.
+Proof. exact node_decode_wf. Qed.
+Print Assumptions C17_mptnode_decode_wf.
+(* decode_canonical: inline children are ACCEPTED by the decoder (F8) but the re-encoding carries references only;
+   the hash - identity of a node - is that of the canonical form *)
+Theorem C17_mptnode_decode_canonical : forall H : list Z -> list Z, (forall b, length (H b) = 32%nat) ->
+  forall bs n rest rest', bytes_ok bs -> decode_node bs = Some (n, rest) ->
+  decode_node (write_node H n ++ rest') = Some (collapse1 H n, rest').
+Proof. exact node_decode_canonical. Qed.
+Print Assumptions C17_mptnode_decode_canonical.
+Theorem C17_mptnode_hash_content_only : forall (H : list Z -> list Z) n, node_hash H (collapse1 H n) = node_hash H n.
+Proof. exact node_hash_collapse1. Qed.
+Print Assumptions C17_mptnode_hash_content_only.
+Theorem C17_mptnode_reencoding_bound : forall H : list Z -> list Z, (forall b, length (H b) = 32%nat) ->
+  forall f d bs n rest, bytes_ok bs -> read_node f d bs = Some (n, rest) ->
+  (length (write_node H n) + length rest <= length bs + 32 * inline_count n)%nat.
+Proof. exact node_reencoding_bound. Qed.
+Print Assumptions C17_mptnode_reencoding_bound.
+Theorem C17_mptnode_decode_total : forall f f' d bs, (length bs < f)%nat -> (length bs < f')%nat -> read_node f d bs = read_node f' d bs.
+Proof. exact node_decode_total. Qed.
+Print Assumptions C17_mptnode_decode_total.
+Theorem C17_mptnode_size_eq : forall H : list Z -> list Z, (forall b, length (H b) = 32%nat) ->
+  forall n, mnode_wf n -> (forall k nx, n = MExt k nx -> nx <> MEmpty) -> node_size n + 1 = Z.of_nat (length (write_node H n)).
+Proof. exact node_size_eq. Qed.
+Print Assumptions C17_mptnode_size_eq.
+(* the byte-level codec and the trie model of C10/C20 (coq/Trie/Model.v) speak about the same bytes; the exclusion is
+   the footprint of F19 (the trie model follows Go's PutVarUint at length 65535) *)
+Theorem C17_node_codec_is_trie_enc : forall (H : list N -> list N) t, trie_wf t -> no_leaf_65535 t ->
+  map Z.of_N (NG.Trie.Model.enc H t) = write_node (HZ H) (of_trie t).
+Proof. exact node_codec_is_trie_enc. Qed.
+Print Assumptions C17_node_codec_is_trie_enc.
+Theorem C17_node_decoder_is_trie_decode : forall f d bs,
+  option_map (fun p => (to_trie (fst p), map Z.to_N (snd p))) (read_node f (Z.of_N d) (map Z.of_N bs)) = NG.Trie.Model.decode f d bs.
+Proof. exact node_decoder_is_trie_decode. Qed.
+Print Assumptions C17_node_decoder_is_trie_decode.
+
+(* ---------- state.MPTRoot ---------- *)
+Theorem C17_mptroot_decode_encode : codec_ok mptroot_wf write_mptroot read_mptroot.
+Proof. exact mptroot_decode_encode. Qed.
+Print Assumptions C17_mptroot_decode_encode.
+Theorem C17_mptroot_decode_wf : dec_wf mptroot_wf read_mptroot.
+Proof. exact mptroot_decode_wf. Qed.
+Print Assumptions C17_mptroot_decode_wf.
+Theorem C17_mptroot_decode_canonical : forall bs r, bytes_ok bs -> decode_all read_mptroot bs = Some r ->
+  decode_all read_mptroot (write_mptroot r) = Some r /\ mptroot_wf r /\ (length (write_mptroot r) <= length bs)%nat.
+Proof. exact mptroot_whole_canonical. Qed.
+Print Assumptions C17_mptroot_decode_canonical.
+Theorem C17_mptroot_decode_total : dec_consumes read_mptroot.
+Proof. exact mptroot_consumes. Qed.
+Print Assumptions C17_mptroot_decode_total.
+Theorem C17_mptroot_size_eq : forall r, mptroot_wf r -> Z.of_nat (length (write_mptroot r)) = 37 + array_size witness_size (rwitness r).
+Proof. exact mptroot_size_eq. Qed.
+Print Assumptions C17_mptroot_size_eq.
+(* the hashed part is a function of version, index and root only: the witness encoding does not enter the identity *)
+Theorem C17_mptroot_hash_content_only : forall bs1 bs2 r1 r2 rest1 rest2,
+  read_mptroot bs1 = Some (r1, rest1) -> read_mptroot bs2 = Some (r2, rest2) ->
+  rversion r1 = rversion r2 -> rindex r1 = rindex r2 -> rroot r1 = rroot r2 ->
+  write_mptroot_unsigned r1 = write_mptroot_unsigned r2.
+Proof. exact mptroot_hash_content_only. Qed.
+Print Assumptions C17_mptroot_hash_content_only.
+
+(* ---------- NotificationEvent / ContractInvocation / AppExecResult (on top of the item codec, protected mode) ---------- *)
+Theorem C17_item_protected_decode_encode : forall i, item_wf_p i -> (count_item i <= max_items)%nat -> deserialize_gen true (enc_item i) = Some i.
+Proof. exact deserialize_p_enc. Qed.
+Print Assumptions C17_item_protected_decode_encode.
+Theorem C17_item_protected_total : forall i,
+  serialize_prot i = if (count_item i <=? max_items)%nat && (Z.of_nat (length (enc_item i)) <=? max_size) then enc_item i else [255].
+Proof. exact serialize_prot_total. Qed.
+Print Assumptions C17_item_protected_total.
+Theorem C17_notification_decode_encode : forall v bs rest, write_notification v = Some bs -> notification_wf v ->
+  read_notification (bs ++ rest) = Some (v, rest).
+Proof. exact notification_decode_encode. Qed.
+Print Assumptions C17_notification_decode_encode.
+Theorem C17_notification_decode_wf : dec_wf notification_wf read_notification.
+Proof. exact notification_decode_wf. Qed.
+Print Assumptions C17_notification_decode_wf.
+Theorem C17_notification_decode_canonical : forall bs v rest rest', bytes_ok bs -> read_notification bs = Some (v, rest) -> notification_fits v ->
+  exists bs', write_notification v = Some bs' /\ read_notification (bs' ++ rest') = Some (v, rest') /\ (length bs' + length rest <= length bs)%nat.
+Proof. exact notification_decode_canonical. Qed.
+Print Assumptions C17_notification_decode_canonical.
+Theorem C17_invocation_decode_encode : codec_ok invocation_wf write_invocation read_invocation.
+Proof. exact invocation_decode_encode. Qed.
+Print Assumptions C17_invocation_decode_encode.
+Theorem C17_aer_decode_encode : forall a bs rest, write_aer a = Some bs -> aer_wf a -> Forall item_fits (astack a) ->
+  read_aer (bs ++ rest) = Some (a, rest).
+Proof. exact aer_decode_encode. Qed.
+Print Assumptions C17_aer_decode_encode.
+Theorem C17_aer_decode_wf : dec_wf aer_wf read_aer.
+Proof. exact aer_decode_wf. Qed.
+Print Assumptions C17_aer_decode_wf.
+Theorem C17_aer_decode_canonical : forall bs a rest rest', bytes_ok bs -> read_aer bs = Some (a, rest) -> aer_fits a ->
+  exists bs', write_aer a = Some bs' /\ read_aer (bs' ++ rest') = Some (a, rest') /\ (length bs' + length rest <= length bs)%nat.
+Proof. exact aer_decode_canonical. Qed.
+Print Assumptions C17_aer_decode_canonical.
+Theorem C17_aer_decode_total : dec_consumes read_aer.
+Proof. exact aer_consumes. Qed.
+Print Assumptions C17_aer_decode_total.
+Theorem C17_aer_stack_bounded : forall bs a rest, read_aer bs = Some (a, rest) -> (length (astack a) <= max_items)%nat.
+Proof. exact aer_stack_bounded. Qed.
+Print Assumptions C17_aer_stack_bounded.
+
+(* ---------- NEF file, for every checksum function with values below 2^32 ---------- *)
+Theorem C17_nef_decode_encode : forall checksum : list Z -> Z, (forall b, 0 <= checksum b < 2 ^ 32) ->
+  forall f rest, nef_wf checksum f -> read_nef checksum (write_nef f ++ rest) = Some (f, rest).
+Proof. exact nef_decode_encode. Qed.
+Print Assumptions C17_nef_decode_encode.
+Theorem C17_nef_decode_wf : forall (checksum : list Z -> Z) bs f rest, bytes_ok bs -> read_nef checksum bs = Some (f, rest) ->
+  nef_wf checksum f /\ bytes_ok rest.
+Proof. exact nef_decode_wf. Qed.
+Print Assumptions C17_nef_decode_wf.
+Theorem C17_nef_decode_canonical : forall checksum : list Z -> Z, (forall b, 0 <= checksum b < 2 ^ 32) ->
+  forall bs f rest rest', bytes_ok bs -> read_nef checksum bs = Some (f, rest) -> read_nef checksum (write_nef f ++ rest') = Some (f, rest').
+Proof. exact nef_canonical. Qed.
+Print Assumptions C17_nef_decode_canonical.
+Theorem C17_nef_decode_total : forall checksum : list Z -> Z, dec_consumes (read_nef checksum).
+Proof. exact nef_consumes. Qed.
+Print Assumptions C17_nef_decode_total.
+(* limits = allocation bounds of everything the decoder accepts *)
+Theorem C17_nef_limits : forall (checksum : list Z -> Z) bs f rest, bytes_ok bs -> read_nef checksum bs = Some (f, rest) ->
+  Z.of_nat (length (nscript f)) <= 131070 /\ Z.of_nat (length (nsource f)) <= 256
+  /\ Forall (fun t => Z.of_nat (length (kmethod t)) <= 32) (ntokens f)
+  /\ Z.of_nat (length (ncompiler f)) <= 64 /\ Z.of_nat (length (ntokens f)) <= 16777216.
+Proof. exact nef_limits. Qed.
+Print Assumptions C17_nef_limits.
+Theorem C17_nef_checksum_detects : forall (checksum : list Z -> Z) bs f rest,
+  read_nef checksum bs = Some (f, rest) -> nchecksum f = checksum (write_nef_body f).
+Proof. exact nef_checksum_detects. Qed.
+Print Assumptions C17_nef_checksum_detects.
+
+(* ---------- P2P payloads that are pure data, the extensible envelope, the frame ---------- *)
+Theorem C17_version_decode_encode : codec_ok version_wf write_version read_version.
+Proof. exact version_decode_encode. Qed.
+Print Assumptions C17_version_decode_encode.
+Theorem C17_version_decode_wf : dec_wf version_wf read_version.
+Proof. exact version_decode_wf. Qed.
+Print Assumptions C17_version_decode_wf.
+Theorem C17_addrlist_decode_encode : codec_ok addrlist_wf write_addrlist read_addrlist.
+Proof. exact addrlist_decode_encode. Qed.
+Print Assumptions C17_addrlist_decode_encode.
+Theorem C17_addrlist_decode_wf : dec_wf addrlist_wf read_addrlist.
+Proof. exact addrlist_decode_wf. Qed.
+Print Assumptions C17_addrlist_decode_wf.
+Theorem C17_inventory_decode_encode : codec_ok inventory_wf write_inventory read_inventory.
+Proof. exact inventory_decode_encode. Qed.
+Print Assumptions C17_inventory_decode_encode.
+Theorem C17_inventory_decode_wf : dec_wf inventory_wf read_inventory.
+Proof. exact inventory_decode_wf. Qed.
+Print Assumptions C17_inventory_decode_wf.
+Theorem C17_getblocks_decode_encode : codec_ok getblocks_wf write_getblocks read_getblocks.
+Proof. exact getblocks_decode_encode. Qed.
+Print Assumptions C17_getblocks_decode_encode.
+Theorem C17_getbyindex_decode_encode : codec_ok getbyindex_wf write_getbyindex read_getbyindex.
+Proof. exact getbyindex_decode_encode. Qed.
+Print Assumptions C17_getbyindex_decode_encode.
+Theorem C17_headers_decode_encode : forall sr, codec_ok (headers_wf sr) (write_headers sr) (read_headers sr).
+Proof. exact headers_decode_encode. Qed.
+Print Assumptions C17_headers_decode_encode.
+Theorem C17_headers_decode_wf : forall sr, dec_wf (headers_wf sr) (read_headers sr).
+Proof. exact headers_decode_wf. Qed.
+Print Assumptions C17_headers_decode_wf.
+Theorem C17_mptdata_count_bounded : forall bs l rest, read_mptdata bs = Some (l, rest) -> (length l + length rest < length bs)%nat.
+Proof. exact mptdata_count_bounded. Qed.
+Print Assumptions C17_mptdata_count_bounded.
+Theorem C17_extensible_decode_encode : codec_ok extensible_wf write_extensible read_extensible.
+Proof. exact extensible_decode_encode. Qed.
+Print Assumptions C17_extensible_decode_encode.
+Theorem C17_extensible_decode_wf : dec_wf extensible_wf read_extensible.
+Proof. exact extensible_decode_wf. Qed.
+Print Assumptions C17_extensible_decode_wf.
+Theorem C17_extensible_decode_canonical : forall bs v rest rest', bytes_ok bs -> read_extensible bs = Some (v, rest) ->
+  read_extensible (write_extensible v ++ rest') = Some (v, rest').
+Proof. exact extensible_canonical. Qed.
+Print Assumptions C17_extensible_decode_canonical.
+
+(* the frame: compression is an abstract function; only [decompress_sane] (what is decompressed from at most 32 MB of
+   well-formed bytes is well-formed and at most 32 MB, as network.decompress enforces) is asked of it *)
+Theorem C17_frame_decode_encode : forall decompress sr f rest, frame_wf sr f -> Z.even (fflags f) = true ->
+  read_frame decompress sr (write_frame sr f ++ rest) = Some (f, rest).
+Proof. exact frame_decode_encode. Qed.
+Print Assumptions C17_frame_decode_encode.
+Theorem C17_frame_decode_encode_compressed : forall compress decompress, (forall x, decompress (compress x) = Some x) ->
+  forall sr f rest, frame_wf sr f -> fpayload f <> PNull -> (1 <= length (compress (write_payload sr (fpayload f))))%nat ->
+  Z.of_nat (length (compress (write_payload sr (fpayload f)))) <= max_payload_size ->
+  read_frame decompress sr (write_frame_compressed compress sr f ++ rest) = Some (Frame (clear_compressed (fflags f) + 1) (fcmd f) (fpayload f), rest).
+Proof. exact frame_decode_encode_compressed. Qed.
+Print Assumptions C17_frame_decode_encode_compressed.
+(* decode_canonical: whatever compressed, padded or non-minimal form was received, the uncompressed re-encoding decodes
+   to the same command and payload *)
+Theorem C17_frame_decode_canonical : forall decompress sr bs f rest rest', bytes_ok bs -> decompress_sane decompress ->
+  read_frame decompress sr bs = Some (f, rest) ->
+  frame_wf sr f /\ read_frame decompress sr (write_frame sr f ++ rest') = Some (Frame (clear_compressed (fflags f)) (fcmd f) (fpayload f), rest').
+Proof. exact frame_canonical. Qed.
+Print Assumptions C17_frame_decode_canonical.
+(* allocation: the announced length is at most 32 MB and is backed by input bytes *)
+Theorem C17_frame_alloc_bounded : forall decompress sr bs f rest, read_frame decompress sr bs = Some (f, rest) ->
+  exists l, frame_length bs = Some l /\ l <= max_payload_size /\ (Z.to_nat l + length rest + 3 <= length bs)%nat.
+Proof. exact frame_alloc_bounded. Qed.
+Print Assumptions C17_frame_alloc_bounded.
+Theorem C17_frame_decode_total : forall decompress sr, dec_consumes (read_frame decompress sr).
+Proof. exact frame_consumes. Qed.
+Print Assumptions C17_frame_decode_total.
